@@ -50,7 +50,7 @@ def ctor_guards(idx: Index) -> Dict[Tuple[str, str], Set[str]]:
         def types_of(t: ast.AST) -> Set[str]:
             elts = t.elts if isinstance(t, ast.Tuple) else [t]
             return {(dotted(e) or src(e)).split(".")[-1] for e in elts}
-        for n in ast.walk(fi.node):
+        for n in fi.node.body:          # guards at the top level of the constructor: a guard under another condition does not always run
             if not isinstance(n, ast.If):
                 continue
             raises_body = any(isinstance(x, ast.Raise) for b in n.body for x in ast.walk(b))
@@ -293,6 +293,25 @@ def _dunder_checks(idx: Index, res: Result) -> int:
             res.check("ORDER", "%s.__neg__ = (-1) * self" % cname, ok, neg[-1].loc(), neg[-1].qual, src(call),
                       "unary minus builds %s" % src(call), key="ORDER/%s.__neg__" % cname)
             n += 1
+    # expression nodes are values: an arithmetic/comparison dunder builds a new node, it never edits or returns its receiver
+    # (an expression object kept in a Python variable can be used in several equations)
+    DUNDERS = set(NONCOMMUTATIVE) | set(REFLECTED) | set(COMMUTATIVE) | set(CMP_SIGN) | {"__neg__", "__pos__", "__rmul__", "__abs__", "__invert__"}
+    for rel in (ELEMENT, OPS):
+        for cname, ci in idx.module(rel).classes.items():
+            for name, defs in ci.methods.items():
+                if name not in DUNDERS:
+                    continue
+                fi = defs[-1]
+                n += 1
+                stores = [x for x in ast.walk(fi.node) if isinstance(x, (ast.Attribute, ast.Subscript)) and isinstance(x.ctx, (ast.Store, ast.Del))]
+                muts = [c for c in iter_calls(fi.node) if call_name(c) in ("append", "extend", "insert", "pop", "remove", "clear", "update", "setdefault", "sort", "reverse")]
+                rets_self = [r for r in walk_no_nested(fi.node) if isinstance(r, ast.Return) and isinstance(r.value, ast.Name) and r.value.id == params(fi.node)[0]]
+                bad = stores or muts or rets_self
+                res.check("ORDER", "%s.%s builds a new node" % (cname, name), not bad, fi.loc(bad[0]) if bad else fi.loc(), fi.qual,
+                          norm_stmt(bad[0])[:90] if bad else "",
+                          "%s.%s %s: the operand object is changed in place, so every other equation that uses the same sub-expression object "
+                          "changes with it" % (cname, name, "stores into %s" % src(stores[0]) if stores else ("mutates %s" % src(muts[0].func.value) if muts else "returns its receiver")),
+                          key="ORDER/%s.%s/in-place" % (cname, name))
     return n
 
 
@@ -338,33 +357,63 @@ def _operand_truth(idx: Index, res: Result) -> int:
             ops = set(params(fi.node)[1:]) - {"model", "sign", "name", "index"}
             if ops:
                 cands.append((fi, ops))
+    # setters of Element classes (equation, initial_value, ...): the new value and the stored one may both be DSL objects
+    STORED = {"_equation", "__initial_value", "_initial_value"}
+    for rel in (ELEMENT, STOCK, FLOW, "BPTK_Py/sddsl/biflow.py", "BPTK_Py/sddsl/converter.py", "BPTK_Py/sddsl/constant.py"):
+        if rel not in idx.modules:
+            continue
+        for q, fi in idx.modules[rel].functions.items():
+            if q.endswith(".setter") and fi.cls:
+                ps_ = set(params(fi.node)[1:])
+                if ps_:
+                    cands.append((fi, ps_))
+
+    def dsl_side(e: ast.AST, operands: Set[str]) -> Optional[str]:
+        if isinstance(e, ast.Name) and e.id in operands:
+            return e.id
+        if isinstance(e, ast.Attribute) and isinstance(e.value, ast.Name) and e.value.id == "self":
+            a = e.attr
+            if a in STORED or any(a.endswith(x) for x in STORED):
+                return "self." + a
+        return None
+
+    def numeric_test(v: ast.AST) -> Optional[str]:
+        """source text of the expression a conjunct proves to be a plain number, else None"""
+        if isinstance(v, ast.Call) and call_name(v) == "isinstance" and len(v.args) == 2 and \
+                {x.id for x in ast.walk(v.args[1]) if isinstance(x, ast.Name)} <= {"int", "float", "bool", "complex"}:
+            return src(v.args[0])
+        if isinstance(v, ast.Compare) and len(v.ops) == 1 and isinstance(v.ops[0], (ast.Is, ast.In)) and isinstance(v.left, ast.Call) \
+                and call_name(v.left) == "type" and {x.id for x in ast.walk(v.comparators[0]) if isinstance(x, ast.Name)} <= {"int", "float", "bool"} \
+                and {x.id for x in ast.walk(v.comparators[0]) if isinstance(x, ast.Name)}:
+            return src(v.left.args[0])
+        return None
     for fi, operands in cands:
         n_inst += 1
         bad = None
         for t in _test_positions(fi.node):
-            # `isinstance(x, (int, float)) and x == 0`: the comparison is only reached for plain numbers
+            # `isinstance(x, (int, float)) and x == 0`: the comparison is only reached for plain numbers - on *both* sides
             numeric_guarded: Set[int] = set()
             for bo in [b for b in ast.walk(t) if isinstance(b, ast.BoolOp) and isinstance(b.op, ast.And)]:
                 guarded: Set[str] = set()
                 for v in bo.values:
-                    if isinstance(v, ast.Call) and call_name(v) == "isinstance" and isinstance(v.args[0], ast.Name) and \
-                            {x.id for x in ast.walk(v.args[1]) if isinstance(x, ast.Name)} <= {"int", "float", "bool", "complex"}:
-                        guarded.add(v.args[0].id)
-                    else:
-                        for c in ast.walk(v):
-                            if isinstance(c, ast.Compare) and all(not isinstance(s_, ast.Name) or s_.id in guarded or s_.id not in operands
-                                                                   for s_ in [c.left] + list(c.comparators)):
-                                numeric_guarded.add(id(c))
+                    g = numeric_test(v)
+                    if g is not None:
+                        guarded.add(g)
+                        continue
+                    for c in ast.walk(v):
+                        if isinstance(c, ast.Compare) and all(dsl_side(s_, operands) is None or src(s_) in guarded for s_ in [c.left] + list(c.comparators)):
+                            numeric_guarded.add(id(c))
             for c in ast.walk(t):
                 if isinstance(c, ast.Compare) and any(isinstance(o, OVERLOADED_CMP) for o in c.ops) and id(c) not in numeric_guarded:
                     sides = [c.left] + list(c.comparators)
-                    hit = [s_ for s_ in sides if isinstance(s_, ast.Name) and s_.id in operands]
+                    hit = [dsl_side(s_, operands) for s_ in sides if dsl_side(s_, operands)]
                     if hit:
-                        bad = (c, hit[0].id)
+                        bad = (c, hit[0])
         res.check("TRUTH", "%s: no overloaded comparison of an operand used as a Python condition" % fi.qual, bad is None,
                   fi.loc(bad[0]) if bad else fi.loc(), fi.qual, src(bad[0]) if bad else "",
-                  "%s tests `%s` as a Python condition; for an Element or Operator operand the overloaded comparison builds an operator "
-                  "object, which is always truthy, so the same branch is taken whatever the operand is" % (fi.qual, src(bad[0]) if bad else ""),
+                  "%s tests `%s` as a Python condition; when %s is an Element or Operator the overloaded comparison (also the reflected one of "
+                  "a float on the left) builds an operator object, which is always truthy, so the same branch is taken whatever the operand is"
+                  % (fi.qual, src(bad[0]) if bad else "", bad[1] if bad else ""),
                   key="TRUTH/%s/%s" % (fi.qual, bad[1] if bad else ""))
     return n_inst
 
@@ -398,7 +447,26 @@ def check_c02(idx: Index, tier: str, res: Result) -> None:
     res.floor("operator-identity instances", nid, 40)
     nd = _dunder_checks(idx, res)
     res.floor("operator dunders on Element/Operator", nd, 30)
+    # array aggregates refer to their members (late bound), they never splice a member's current number
+    _r2(idx, res, [r for r in renderers if r.cls in vocab], floor=40)
     nt = _operand_truth(idx, res)
+    # "unsupported nestings are rejected": the type guards of the public constructors run on every call
+    ng = 0
+    for q, fi in idx.module(FUNCTIONS).functions.items():
+        if fi.cls or "." in q:
+            continue
+        ps_ = set(params(fi.node))
+        for outer in [n for n in fi.node.body if isinstance(n, ast.If)]:
+            for inner_if in [n for b in outer.body + outer.orelse for n in ast.walk(b) if isinstance(n, ast.If)]:
+                gs = [c for c in ast.walk(inner_if.test) if isinstance(c, ast.Call) and call_name(c) == "isinstance" and isinstance(c.args[0], ast.Name) and c.args[0].id in ps_]
+                raises = any(isinstance(x, ast.Raise) for b in inner_if.body + inner_if.orelse for x in ast.walk(b))
+                outer_names = {x.id for x in ast.walk(outer.test) if isinstance(x, ast.Name)}
+                for g in gs:
+                    if raises and g.args[0].id not in outer_names:
+                        ng += 1
+                        res.find("TRUTH", "TRUTH/%s/%s/guard-under-unrelated-condition" % (fi.qual, g.args[0].id), fi.loc(inner_if), fi.qual, src(inner_if.test)[:80],
+                                 "%s checks the type of %s only when `%s` holds: with the other outcome of that condition an operand of any kind is accepted, "
+                                 "and the term() template that relies on the guard splices a compound operand unparenthesised" % (fi.qual, g.args[0].id, src(outer.test)[:50]))
     res.floor("public constructors / operator initialisers examined for operand truth tests", nt, 60)
     res.extra.update(stats)
     res.extra["r1_triples"] = triples
@@ -670,10 +738,28 @@ def sweep_loop(idx: Index):
     from ..util import deref, table_row_of
     sim = idx.func(SDSIM, "SdSimulation._SdSimulation__simulate") if idx.try_func(SDSIM, "SdSimulation._SdSimulation__simulate") \
         else idx.func(SDSIM, "SdSimulation.__simulate")
+    sparams = params(sim.node)
+
+    def through_caller(e: ast.AST) -> ast.AST:
+        """a parameter of __simulate: the argument the thread starter passes for it (Thread(target=self.__simulate, args=(...)))"""
+        if not (isinstance(e, ast.Name) and e.id in sparams[1:]):
+            return e
+        pos = sparams.index(e.id) - 1
+        for caller in idx.module(SDSIM).functions.values():
+            for c in iter_calls(caller.node):
+                if call_name(c) == "Thread":
+                    kw = {k.arg: k.value for k in c.keywords}
+                    if "target" in kw and (dotted(kw["target"]) or "").endswith("simulate") and isinstance(kw.get("args"), ast.Tuple) \
+                            and len(kw["args"].elts) > pos:
+                        return deref(caller.node, kw["args"].elts[pos])
+                elif (call_name(c) or "").endswith("simulate") and call_name(c) != "__simulate_equations" and len(c.args) > pos and caller is not sim \
+                        and call_name(c) in ("__simulate", "_SdSimulation__simulate"):
+                    return deref(caller.node, c.args[pos])
+        return e
     loops = []
     for n in walk_no_nested(sim.node):
         if isinstance(n, ast.For):
-            it = deref(sim.node, n.iter)
+            it = through_caller(deref(sim.node, n.iter))
             if isinstance(it, ast.Call) and call_name(it) == "timerange":
                 loops.append((n, it))
     if len(loops) != 1 or not isinstance(loops[0][0].target, ast.Name):
@@ -881,6 +967,7 @@ def check_c01(idx: Index, tier: str, res: Result) -> None:
     _sweep(idx, res)
     from .timegrid import check_normalisation
     check_normalisation(idx, res)       # a wrong precision/offset evaluates equations at the wrong grid time
+    _operand_truth(idx, res)            # a setter that decides on an overloaded comparison silently keeps / drops a value the user assigned
     from .memo import invalidate_on_edit
     # the values reported are those of the model as it is *now*: an edited equation must not be answered from the old memo
     res.floor("definition-changing members of sddsl", invalidate_on_edit(idx, res, "FRESH"), 5)
